@@ -160,7 +160,7 @@ Section Total.
   Notation build_metric := (om_build_metric legacy NUM parse_float num_lt num_eqb num_zero num_inf).
   Notation flush := (om_flush legacy NUM parse_float num_lt num_eqb num_zero num_inf).
   Notation meta_line := (om_meta_line legacy true fix_unit NUM parse_float num_lt num_eqb num_zero num_inf).
-  Notation enter_family := (om_enter_family legacy true NUM parse_float num_lt num_eqb num_zero num_inf).
+  Notation enter_family := (om_enter_family legacy true fix_sname NUM parse_float num_lt num_eqb num_zero num_inf).
   Notation group_step := (om_group_step true NUM num_lt num_eqb ts_float).
   Notation pre_checks := (om_pre_checks NUM parse_float num_lt num_eqb num_integral num_zero num_one num_inf).
   Notation post_checks := (om_post_checks true NUM num_lt num_eqb num_huge num_zero num_one).
@@ -575,9 +575,13 @@ Section Total.
     destruct (negb (mem_str (os_name s) (st_allowed st)) && negb b) eqn:C.
     - apply andb_true_iff in C as [C1 C2]. destruct b; [discriminate|].
       pose proof (VE_flush st HI0) as F. destruct (flush st) as [[o seen']|e]; cbn [bind]; [|split; [exact F|discriminate]].
-      pose proof (unquote_unescape_fixed_VE (os_name s)) as U.
-      destruct (unquote_unescape_with true (os_name s)) as [[cand quoted]|e]; cbn [bind]; [|split; [exact U|discriminate]].
-      destruct (negb quoted && _); [split; [reflexivity|discriminate]|]. split; [exact I|].
+      assert (U : only_VE (om_implicit_name true fix_sname NUM s)).
+      { unfold om_implicit_name. destruct fix_sname; [exact I|].
+        pose proof (unquote_unescape_fixed_VE (os_name s)) as U.
+        destruct (unquote_unescape_with true (os_name s)) as [[cand quoted]|e]; cbn [bind]; [|exact U].
+        destruct (negb quoted && _); [reflexivity|exact I]. }
+      destruct (om_implicit_name true fix_sname NUM s) as [cand|e]; cbn [bind]; [|split; [exact U|discriminate]].
+      split; [exact I|].
       intros st1 out E. inversion E; subst. split; [apply Inv_new_family, not_hist_unknown|].
       split; [eexists; reflexivity|]. cbn. rewrite str_eqb_refl. reflexivity.
     - split; [exact I|]. intros st1 out E. inversion E; subst. split; [exact HI0|].
